@@ -725,10 +725,10 @@ func classifyKill(r *runInfo) string {
 		return -1
 	}
 	clone, commit, push, mv := last("git clone "), last("git commit -m"), last("git push --quiet"), last("mv next ")
-	rm, ln := last("rm -f $CURRENT"), last("ln -s $POLICY")
+	ln := last("ln -s $POLICY")
 	switch {
-	case rm > clone && ln < rm:
-		return "rm_ln"
+	case mv > clone && ln < mv:
+		return "mv_ln"
 	case push > commit && commit > clone && mv < push:
 		return "push_promote"
 	case clone >= 0 && commit < clone:
@@ -759,7 +759,7 @@ func (os_ *oracleState) check(o *obs, before *obs, ev string, r *runInfo, staleB
 				if m >= n {
 					pred := "policy_number_not_increasing"
 					if raceLost {
-						pred = "policy_number_reused_after_failed_push_and_lost_link"
+						pred = "policy_number_reused_after_failed_push_and_kill_before_ln"
 					}
 					fs = append(fs, finding{pred, fmt.Sprintf("current switched to p%d after p%d had been current", n, m)})
 					break
@@ -791,7 +791,7 @@ func (os_ *oracleState) check(o *obs, before *obs, ev string, r *runInfo, staleB
 			os_.nested[d.N] = true
 			pred := "policy_number_reused_other"
 			if raceLost {
-				pred = "policy_number_reused_after_failed_push_and_lost_link"
+				pred = "policy_number_reused_after_failed_push_and_kill_before_ln"
 			}
 			fs = append(fs, finding{pred, fmt.Sprintf("mv next p%d landed inside the existing directory p%d: the number was used twice", d.N, d.N)})
 		}
@@ -812,7 +812,7 @@ func (os_ *oracleState) check(o *obs, before *obs, ev string, r *runInfo, staleB
 			case staleBy == "push_promote":
 				pred = "killed_between_push_and_promote"
 			case raceLost:
-				pred = "policy_number_reused_after_failed_push_and_lost_link"
+				pred = "policy_number_reused_after_failed_push_and_kill_before_ln"
 			}
 			fs = append(fs, finding{pred, "undisturbed run exited 0, the newest revision compiles, but current (" + o.Cur + ") is not that revision"})
 		}
@@ -845,8 +845,8 @@ func runScenario(t *tools, name string, sc scenario, drv *Nadrv) *caseResult {
 	orc := &oracleState{lastCur: "-"}
 	prev := sb.observe()
 	staleBy := ""     // window of the kill that left a `next` whose HEAD equals the remote
-	racePush := false // some run had a user commit injected right before `git push`
-	raceLost := false // … and a run was killed between rm and ln afterwards
+	racePush := false // this run had a user commit injected right before `git push` (push rejected)
+	raceLost := false // … and was killed after `mv next pN` and before `ln -s` (sticky)
 	for _, ev := range sc.Events {
 		parts := strings.Split(ev, ":")
 		var r *runInfo
@@ -862,19 +862,20 @@ func runScenario(t *tools, name string, sc scenario, drv *Nadrv) *caseResult {
 			r = sb.run(plan, sc.Wrapper && len(plan) == 0)
 			cr.counts["event:run"]++
 			cr.counts["run-exit:"+r.Exit]++
+			racePush = false
 			for _, it := range plan {
 				if it.K <= len(r.Lines) {
 					cr.fired++
 					cr.counts["action-fired:"+strings.TrimRight(it.Act, "0123456789")]++
 					if (it.Act == "cg" || it.Act == "cb") && strings.HasPrefix(r.Cmds[it.K-1], "git push --quiet") {
-						racePush = true
+						racePush = true // a user commit lands between `git pull` and `git push` of THIS run
 					}
 				}
 			}
 			if w := classifyKill(r); w != "" {
 				cr.counts["kill-window:"+w]++
-				if w == "rm_ln" && racePush {
-					raceLost = true
+				if w == "mv_ln" && racePush {
+					raceLost = true // pN exists, its number is neither in the repository nor in the link
 				}
 			}
 			for _, n := range r.Nested {
@@ -1169,7 +1170,7 @@ func runC19(ctx *Ctx) *Result {
 					scs = append(scs, scenario{Kind: "seq", SysEmail: se, Events: evs2})
 				}
 			}
-			if ctx.Thorough() {
+			if ctx.Thorough() && !se && probeNo <= 2 {
 				// commit before k1, kill before k2, for k1 around commit..push and every later k2
 				for k1 := L - 22; k1 <= L-8; k1++ {
 					for k2 := k1 + 1; k2 <= L; k2++ {
@@ -1192,7 +1193,7 @@ func runC19(ctx *Ctx) *Result {
 		sc.Events = append(sc.Events, genCommit(rng))
 		scs = append(scs, sc)
 	}
-	nRandom := ctx.N(120, 2500)
+	nRandom := ctx.N(120, 1500)
 	for i := 0; i < nRandom; i++ {
 		scs = append(scs, genScenario(ctx.Rng.Fork(), ctx.N(6, 9)))
 	}
@@ -1211,7 +1212,7 @@ func runC19(ctx *Ctx) *Result {
 			}
 		}()
 	}
-	deadline := time.Now().Add(time.Duration(ctx.N(45, 900)) * time.Second)
+	deadline := time.Now().Add(time.Duration(ctx.N(45, 840)) * time.Second)
 	skipped := 0
 	for i := range scs {
 		if time.Now().After(deadline) {
